@@ -3,6 +3,10 @@ mod c03;
 mod c07;
 mod c15;
 mod c20;
+mod dialect;
+mod indep;
+mod parseprops;
+mod roundtrip;
 mod enc;
 mod gentext;
 mod genval;
@@ -32,6 +36,17 @@ fn main() {
     let mut out = out::Out::new();
     pobs::write_alpha_table(&dir.join("alpha.txt"));
     match id {
+        "C01" => roundtrip::run_c01(tier, seed, &mut out),
+        "C02" => roundtrip::run_c02(tier, seed, &mut out),
+        "C12" => roundtrip::run_c12(tier, seed, &mut out),
+        "C13" => roundtrip::run_c13(tier, seed, &mut out),
+        "C05" => parseprops::run_c05(tier, seed, &mut out),
+        "C06" => parseprops::run_c06(tier, seed, &mut out),
+        "C08" => parseprops::run_c08(tier, seed, &mut out),
+        "C10" => parseprops::run_c10(tier, seed, &mut out),
+        "C11" => parseprops::run_c11(tier, seed, &mut out),
+        "C17" => parseprops::run_c17(tier, seed, &mut out),
+        "C19" => parseprops::run_c19(tier, seed, &mut out),
         "C03" => c03::run(tier, seed, &mut out),
         "C07" => c07::run(tier, seed, &mut out),
         "C20" => c20::run(tier, seed, &mut out),
